@@ -36,6 +36,8 @@ type tmpfile struct {
 	bucket  string
 	objname string
 	size    int64
+	// see with_otmpfile.go (link() never creates directories here)
+	parentMustExist bool
 }
 
 func (p *Posix) openTmpFile(dir, bucket, obj string, size int64, acct auth.Account, _ bool, _ bool) (*tmpfile, error) {
